@@ -18,6 +18,20 @@ ASSUME = ["secp256k1 ECDSA / BIP340 verification: spec/CryptoPrims.java (differe
 
 def make_jobs(chk):
     jobs = gen_sig.ecdsa_jobs(chk) + gen_sig.multisig_jobs(chk) + gen_sig.taproot_jobs(chk)
+    # whole single-input spends set up by the tool itself from --tx/--txin (script code, amount, leaf hash, annex and the BIP342
+    # signature budget all come from the tool's own set-up instead of being handed to the session)
+    import gen_spend
+    from drivers import SessionJob, STANDARD
+    n = 0
+    for rep in range(3 if chk.tier == "quick" else 40):
+        for typ in ("p2pkh", "p2wpkh", "p2wsh", "p2sh-p2wpkh", "p2tr-key", "p2tr-script"):
+            for mut in ("valid", "wrong-key", "wrong-amount", "altered-output", "annex", "empty-sig"):
+                if mut == "annex" and not typ.startswith("p2tr"): continue
+                if mut == "wrong-amount" and typ == "p2pkh": continue
+                c = gen_spend.SpendCase(chk.rng, typ, mut, 1, 0, chk.rng.randrange(3), n_out=chk.rng.choice([1, 2]))
+                n += 1
+                jobs.append(SessionJob("auto%d:%s:%s" % (n, typ, mut), b"", [], STANDARD, "BASE", cmds=["steps"], cmp=gen_spend.CMP_SPEND, auto=True,
+                                       txctx={"tx": c.tx.hex(), "txin": c.funding.hex(), "select": -1}))
     # every fourth execution is run to completion in one go instead of stepped (the non-interactive path)
     for i, j in enumerate(jobs):
         if i % 4 == 3:
